@@ -542,7 +542,8 @@ impl Exec {
         if let Some(msg) = &panicked {
             if msg != obs::CALLBACK_PANIC {
                 if msg.contains("attempt to") {
-                    self.violate("C10", "arithmetic-panic", format!("{what}: {msg}"));
+                    // (also a C06 matter: "none of these calls panics")
+                    self.violate("C10", "arithmetic-panic-in-callback", format!("{what}: {msg}"));
                 } else {
                     self.violate("C06", "callback-op-panicked", format!("{what}: an operation inside the callback panicked: {msg}"));
                 }
